@@ -105,6 +105,12 @@ func (w *World) ruleKindNarrowing(r *Report, rule string) {
 					ok, fact := w.decoderInverts(kinds, cv)
 					r.add(rule, key, w.instrPos(cv), ok, fmt.Sprintf("same-width reinterpretation %s→%s (kinds %v): %s", typeStr(cv.X.Type()), typeStr(cv.Type()), kinds, fact))
 				default:
+					// the conversion may precede its guard (narrow first, then compare the
+					// round trip): what counts is the operand's range where the result is used
+					if seen, lossy, fact := w.convVerdict(cv); seen && !lossy {
+						r.add(rule, key, w.instrPos(cv), true, "narrowing conversion whose result is only used where the operand fits: "+fact)
+						continue
+					}
 					r.add(rule, key, w.instrPos(cv), false, fmt.Sprintf("narrowing conversion: operand ∈ %s does not fit %s (kinds here: %v) — a value outside the target range is silently altered", src, typeStr(cv.Type()), kinds))
 				}
 			}
@@ -305,83 +311,47 @@ type kindTable struct {
 	enc, dec map[string]string // kind name -> codec name
 }
 
-// kindTables extracts Kind -> wire codec from the encoder's kind dispatch
-// (WriteData) and from the decoder's field dispatch (readField): for every
-// block whose Kind facts are narrowed to a few kinds, the scalar codec whose
-// wrapper is called there.
+// kindTables extracts Kind -> wire codec from the encoder's value dispatch
+// (WriteData) and from the decoder's field dispatch (readField): one
+// exploration per kind with every Kind() pinned (kindruns.go); the codec is
+// the first scalar writer / reader met on the paths of that kind.  Helpers,
+// if chains, predicates over the kind and switch statements all look alike.
 func (w *World) kindTables() (*kindTable, error) {
 	wd, rf := w.fn("(*Encoder).WriteData"), w.fn("(*Decoder).readField")
 	if wd == nil || rf == nil {
 		return nil, fmt.Errorf("WriteData or readField not found")
 	}
-	cs := w.codecs()
 	t := &kindTable{enc: map[string]string{}, dec: map[string]string{}}
-	scan := func(fn *ssa.Function, out map[string]string, side string) {
-		f := w.flow(fn)
-		for _, b := range fn.Blocks {
-			ks := f.kindsAt(b)
-			if len(ks) == 0 || len(ks) > 8 {
-				continue
+	for _, name := range scalarKinds {
+		k := kindByName[name]
+		for _, side := range []string{"enc", "dec"} {
+			fn, out := wd, t.enc
+			if side == "dec" {
+				fn, out = rf, t.dec
 			}
-			for _, in := range b.Instrs {
-				c, ok := in.(*ssa.Call)
-				if !ok {
+			kr := w.kindRun(fn, k, side)
+			if kr.truncated {
+				return nil, fmt.Errorf("exploration of %s for kind %s exceeded its budget", fnName(fn), name)
+			}
+			var labels []string
+			for _, a := range kr.arms() {
+				if a == "error" || a == "none" {
 					continue
 				}
-				sc := c.Call.StaticCallee()
-				if sc == nil {
-					continue
-				}
-				targets := []*ssa.Function{sc}
-				// a helper extracted from the dispatch (writeGoInt, readStructField …): look inside it
-				if w.inPkg(sc) && sc.Blocks != nil {
-					isRole := false
-					for _, cd := range cs {
-						if sc == cd.EncW || sc == cd.Wrap {
-							isRole = true
-						}
-					}
-					if !isRole && sc != fn {
-						for g := range w.reachPkg(sc) {
-							if g != fn && g.Name() != "WriteData" && g.Name() != "ReadData" {
-								targets = append(targets, g)
-							}
-						}
+				a = strings.TrimPrefix(strings.TrimPrefix(a, "scalar:"), "encode:")
+				dup := false
+				for _, l := range labels {
+					if l == a {
+						dup = true
 					}
 				}
-				for _, cd := range cs {
-					if (side == "enc" && cd.EncW == nil) || (side == "dec" && cd.Wrap == nil) {
-						continue
-					}
-					hit := false
-					for _, tg := range targets {
-						if tg == sc {
-							if (side == "enc" && sc == cd.EncW) || (side == "dec" && sc == cd.Wrap) {
-								hit = true
-							}
-							if len(targets) == 1 {
-								continue
-							}
-						}
-						if (side == "enc" && callsStatic(tg, cd.EncW)) || (side == "dec" && callsStatic(tg, cd.Wrap)) {
-							hit = true
-						}
-					}
-					if hit {
-						for _, k := range ks {
-							if prev, ok := out[k]; ok && prev != cd.Name {
-								out[k] = prev + "|" + cd.Name
-							} else {
-								out[k] = cd.Name
-							}
-						}
-					}
+				if !dup {
+					labels = append(labels, a)
 				}
 			}
+			out[name] = strings.Join(labels, "|")
 		}
 	}
-	scan(wd, t.enc, "enc")
-	scan(rf, t.dec, "dec")
 	return t, nil
 }
 
